@@ -287,6 +287,7 @@ func v6Fix(res *OracleResult, r *Rng, n int, thorough bool, seeds []string, seen
 		res.Evaluations++
 		line := "v6fix " + hx(b)
 		var what string
+		class := "v6-fixpoint"
 		acc := false
 		func() {
 			defer func() {
@@ -303,6 +304,12 @@ func v6Fix(res *OracleResult, r *Rng, n int, thorough bool, seeds []string, seen
 			m1, err := dhcpv6.FromBytes(b1)
 			if err != nil {
 				what = "re-encoded message does not decode: " + err.Error()
+				if optTooLong6(m0) {
+					// known finding: an option value that grew past 65535 octets on
+					// re-encoding (an embedded DHCPv4 message is re-padded to 300
+					// bytes) wraps its 16-bit length field
+					class = "v6-fixpoint-length-overflow"
+				}
 				return
 			}
 			if s0, s1 := stripLabelOriginals(sxMsg6(m0)), stripLabelOriginals(sxMsg6(m1)); s0 != s1 {
@@ -322,7 +329,7 @@ func v6Fix(res *OracleResult, r *Rng, n int, thorough bool, seeds []string, seen
 			res.Tags["v6:"+tag+"/rejected"]++
 		}
 		if what != "" {
-			res.fail(Failure{Oracle: "c06", Input: line, What: what, Class: "v6-fixpoint"})
+			res.fail(Failure{Oracle: "c06", Input: line, What: what, Class: class})
 		}
 	}
 	for _, s := range seeds {
@@ -334,8 +341,82 @@ func v6Fix(res *OracleResult, r *Rng, n int, thorough bool, seeds []string, seen
 			}()
 		}
 	}
+	run(v6RepadOverflowProbe(), "probe-length-overflow")
 	for i := 0; i < n; i++ {
 		b, kind := genWire6(r.Fork())
 		run(b, kind)
 	}
+}
+
+// v6RepadOverflowProbe: SOLICIT{IA_TA{opt 87 = 241-byte DHCPv4 message, opt 4242
+// = 65250 bytes}} - 65511 bytes, a legal UDP/IPv6 payload. Decoding succeeds;
+// re-encoding re-pads the embedded DHCPv4 message to 300 bytes, the IA_TA value
+// becomes 65562 bytes and its 16-bit length wraps (Lean: C06_v6_length_needed).
+func v6RepadOverflowProbe() []byte {
+	v4 := make([]byte, 241)
+	v4[0] = 1
+	copy(v4[236:], []byte{99, 130, 83, 99})
+	v4[240] = 255
+	sub := append([]byte{0, 87, 0, 241}, v4...)
+	sub = append(sub, 0x10, 0x92, 0xfe, 0xe2)
+	sub = append(sub, make([]byte, 65250)...)
+	val := append([]byte{0, 0, 0, 1}, sub...)
+	msg := []byte{1, 1, 2, 3, 0, 4, byte(len(val) >> 8), byte(len(val))}
+	return append(msg, val...)
+}
+
+// optTooLong6 reports whether some option of m (at any depth) now encodes to
+// more than 65535 octets.
+func optTooLong6(m dhcpv6.DHCPv6) bool {
+	var opts dhcpv6.Options
+	switch v := m.(type) {
+	case *dhcpv6.Message:
+		opts = v.Options.Options
+	case *dhcpv6.RelayMessage:
+		opts = v.Options.Options
+	default:
+		return false
+	}
+	return optsTooLong6(opts)
+}
+
+func optsTooLong6(os dhcpv6.Options) bool {
+	for _, o := range os {
+		if len(o.ToBytes()) > 65535 {
+			return true
+		}
+		switch v := o.(type) {
+		case *dhcpv6.OptIANA:
+			if optsTooLong6(v.Options.Options) {
+				return true
+			}
+		case *dhcpv6.OptIATA:
+			if optsTooLong6(v.Options.Options) {
+				return true
+			}
+		case *dhcpv6.OptIAAddress:
+			if optsTooLong6(v.Options.Options) {
+				return true
+			}
+		case *dhcpv6.OptIAPD:
+			if optsTooLong6(v.Options.Options) {
+				return true
+			}
+		case *dhcpv6.OptIAPrefix:
+			if optsTooLong6(v.Options.Options) {
+				return true
+			}
+		case *dhcpv6.Opt4RD:
+			if optsTooLong6(v.Options) {
+				return true
+			}
+		default:
+			if o.Code() == dhcpv6.OptionRelayMsg {
+				if inner, ok := field(o, "Msg").Interface().(dhcpv6.DHCPv6); ok && optTooLong6(inner) {
+					return true
+				}
+			}
+		}
+	}
+	return false
 }
